@@ -127,24 +127,28 @@ GitSetF(s, b, c) == [s EXCEPT !.git[b] = c]
 ---------------------------------------------------------------------------
 (* CONTRACTS                                                                *)
 
-(* value v is not lost in result r: it is a side of r, or some side of r    *)
-(* is a descendant of v (the bookmark was fast-forwarded past v)            *)
-Covered(par, v, r) ==
-  \/ v \in Adds(r)
-  \/ (v # Absent /\ \E w \in Adds(r) \ {Absent} : IsAncestor(par, v, w))
-
 (* Git moved b from a to g while jj holds l (l # <<a>>, l # <<g>>); r is    *)
 (* the result.  The meaning of the merge is the signed multiset of          *)
-(* l - a + g.  Either r has exactly that meaning (so two different          *)
-(* surviving values make a conflict holding both), or every surviving value *)
-(* is still a side of r or an ancestor of one (fast-forward).  Nothing is   *)
-(* invented.                                                                *)
+(* l - a + g (RawMerge).  Either r has exactly that meaning - so two        *)
+(* different surviving values make a conflict holding both - or a surviving *)
+(* value v that is no longer a side of r was FAST-FORWARDED: some side w of *)
+(* r is a descendant of v, AND v itself descends from a base y of the merge *)
+(* (y absent counts as the root): y <= v <= w.  The second half matters:    *)
+(* with base A, jj moving the bookmark BACK to P < A and Git moving it      *)
+(* forward to C > A, P <= C holds but Git's move A -> C does not contain    *)
+(* jj's move A -> P, so taking C would silently drop jj's update; that must *)
+(* be the conflict P - A + C.  Nothing is invented.                         *)
 RawMerge(l, a, g) == l \o <<a, g>>
+FastForwarded(par, raw, v, r) ==
+  /\ v # Absent
+  /\ \E w \in Adds(r) \ {Absent} : IsAncestor(par, v, w)
+  /\ \E y \in Neg(raw) : y = Absent \/ IsAncestor(par, y, v)
+Covered(par, raw, v, r) == v \in Adds(r) \/ FastForwarded(par, raw, v, r)
 TwoSidedOK(par, l, a, g, r) ==
   /\ IsMerge(r)
   /\ Adds(r) \subseteq Adds(l) \cup {g}
   /\ \/ SameDenote(r, RawMerge(l, a, g))
-     \/ \A v \in Pos(RawMerge(l, a, g)) : Covered(par, v, r)
+     \/ \A v \in Pos(RawMerge(l, a, g)) : Covered(par, RawMerge(l, a, g), v, r)
 
 ImportBookmarkOK(par, l, a, g, r) ==
   IF g = a THEN r = l                              \* nothing happened in Git: untouched
